@@ -11,21 +11,41 @@
 From EG Require Import Base.Prelude Model.Geometry Model.Line Model.Style Model.Polyline Model.Triangle Model.Tristyled
   Proofs.Triangle Proofs.Tristyled.
 
-(* the step-by-step pixel iterator never runs out of fuel and yields the points of every scanline that has a colour *)
-Theorem C01_tri_triangle_pixels_spec : forall st lines,
-  tri_styled_pixels st lines =
+(* The generator of the triangle is an UN-FUSED iterator and is modelled as such (Model/Tristyled.v gen_state / gen_next:
+   when a row is used up exactly one further row is loaded; an empty row makes next() return None once, later calls go on).
+   `rows` = what every row of the bounding box yields.  for_sequence rows = what the `for` loop of draw() sees (up to the
+   first None); pixels_sequence rows = what StyledPixelsIterator sees (its new() swallows one None). *)
+
+(* the step-by-step pixel iterator never runs out of fuel and yields the points of every scanline that has a colour,
+   over the sequence pixels() sees, which is the `for` sequence unless the first two rows are both empty *)
+Theorem C01_tri_triangle_pixels_spec : forall st rows,
+  tri_styled_pixels st rows =
+  flat_map (fun lk => match (match snd lk with PTStroke => effective_stroke_color st | PTFill => fill_color st end) with
+                      | Some c => map (fun p => (p, c)) (sl_points (fst lk))
+                      | None => []
+                      end)
+           (match rows with [] :: [] :: rest => gen_go rest | _ => for_sequence rows end).
+Proof. intros st rows. rewrite tri_styled_pixels_spec, pixels_sequence_unfold. reflexivity. Qed.
+
+(* triangle_glue_pixels_draw: draw() writes exactly the items of pixels(), in the same order, whatever the rows of the generator
+   yield (stroke and fill scanlines, empty scanlines, colourless scanlines, transparent styles included), provided
+   first_rows_ok rows := not (the first two rows yield nothing while a later row yields something).
+   That proviso is a property of the GENERATOR (the first row of the styled bounding box contains a scanline); it is proved
+   for stroke width 0 below and is the remaining obligation for stroked triangles (PARTIAL, see props/C01_tri.py). *)
+Theorem C01_tri_triangle_glue_pixels_draw : forall st rows,
+  Forall (Forall (fun lk => sl_ok (fst lk))) rows -> first_rows_ok rows ->
+  flat_map fill_writes (tri_draw_styled st (for_sequence rows)) = tri_styled_pixels st rows.
+Proof. exact tri_glue_pixels_draw. Qed.
+
+(* without the proviso: the two consumers agree on any common sequence *)
+Theorem C01_tri_triangle_consumers_agree : forall st lines,
+  Forall (fun lk => sl_ok (fst lk)) lines ->
+  flat_map fill_writes (tri_draw_styled st lines) =
   flat_map (fun lk => match (match snd lk with PTStroke => effective_stroke_color st | PTFill => fill_color st end) with
                       | Some c => map (fun p => (p, c)) (sl_points (fst lk))
                       | None => []
                       end) lines.
-Proof. exact tri_styled_pixels_spec. Qed.
-
-(* triangle_glue_pixels_draw: draw() writes exactly the items of pixels(), in the same order, whatever the generator yields
-   (stroke and fill scanlines, empty scanlines, colourless scanlines, transparent styles included) *)
-Theorem C01_tri_triangle_glue_pixels_draw : forall st lines,
-  Forall (fun lk => sl_ok (fst lk)) lines ->
-  flat_map fill_writes (tri_draw_styled st lines) = tri_styled_pixels st lines.
-Proof. exact tri_glue_pixels_draw. Qed.
+Proof. exact tri_draw_writes. Qed.
 
 (* ... and with the generator of a triangle with stroke width 0 (Model/Triangle.v tri_scanlines) put in *)
 Theorem C01_tri_triangle_w0_pixels_draw : forall st t, tri_ok t ->
@@ -47,8 +67,10 @@ Proof. exact poly_glue_pixels_draw_thin. Qed.
 (* non-vacuity: a fill scanline, an empty one, a stroke scanline without stroke colour, a stroke scanline *)
 Example C01_tri_example :
   let st := Style (Some 7) (Some 9) 2 Center Solid in
-  let lines := [(SL 0 1 3, PTFill); (SL 1 0 0, PTStroke); (SL 2 5 6, PTStroke)] in
-  tri_styled_pixels st lines = [(P 1 0, 7); (P 2 0, 7); (P 5 2, 9)] /\
-  tri_draw_styled st lines = [(R (P 1 0) (S 2 1), 7); (R (P 5 2) (S 1 1), 9)] /\
-  tri_styled_pixels (Style (Some 7) None 2 Center Solid) lines = [(P 1 0, 7); (P 2 0, 7)].
+  let rows := [[(SL 0 1 3, PTFill); (SL 0 4 5, PTStroke)]; [(SL 1 0 0, PTStroke)]; [(SL 2 5 6, PTStroke)]; []; [(SL 4 0 1, PTFill)]] in
+  tri_styled_pixels st rows = [(P 1 0, 7); (P 2 0, 7); (P 4 0, 9); (P 5 2, 9)] /\
+  tri_draw_styled st (for_sequence rows) = [(R (P 1 0) (S 2 1), 7); (R (P 4 0) (S 1 1), 9); (R (P 5 2) (S 1 1), 9)] /\
+  tri_styled_pixels (Style (Some 7) None 2 Center Solid) rows = [(P 1 0, 7); (P 2 0, 7)] /\
+  (* the un-fused protocol: two empty first rows end the `for` loop, not pixels() *)
+  for_sequence [[]; []; [(SL 2 0 1, PTFill)]] = [] /\ tri_styled_pixels st [[]; []; [(SL 2 0 1, PTFill)]] = [(P 0 2, 7)].
 Proof. cbv zeta. repeat split; vm_compute; reflexivity. Qed.
